@@ -9,6 +9,7 @@ package main
 import (
 	"errors"
 	"fmt"
+	"sync"
 
 	"github.com/blinklabs-io/gouroboros/cbor"
 	"github.com/blinklabs-io/gouroboros/ledger"
@@ -20,8 +21,20 @@ import (
 	"verifharness/vh"
 )
 
+var (
+	scanOnce  sync.Once
+	scanTabs  []gtable
+	scanSites []gsite
+	scanErr   error
+)
+
+func cachedScan() ([]gtable, []gsite, error) {
+	scanOnce.Do(func() { scanTabs, scanSites, scanErr = scanRepo() })
+	return scanTabs, scanSites, scanErr
+}
+
 func tableByName(name string) map[uint64]string {
-	tabs, _, err := scanRepo()
+	tabs, _, err := cachedScan()
 	if err != nil {
 		return nil
 	}
@@ -83,9 +96,17 @@ func families2() []family {
 			spec = tableByName(table)
 		}
 		if shapes == nil {
-			shapes = autoShapes(ids(spec))
+			if spec == nil { // the table was not found by the scan: candidates for every small id
+				all := make([]uint64, 41)
+				for k := range all {
+					all[k] = uint64(k)
+				}
+				shapes = autoShapes(all)
+			} else {
+				shapes = autoShapes(ids(spec))
+			}
 		}
-		fs = append(fs, family{name: name, spec: spec, shapes: shapes, decode: dec, wrap: wrap, firstAccepted: firstOnly})
+		fs = append(fs, family{name: name, spec: spec, shapes: shapes, decode: dec, wrap: wrap, firstAccepted: firstOnly, table: table})
 	}
 	add("with-origin-slot", "", map[uint64]string{0: "origin", 1: "slot"}, []shape{{0, nil}, {1, []*vh.Item{vh.U(42)}}}, nil, false,
 		func(b []byte) (string, error) {
